@@ -186,7 +186,7 @@ def grep_audit():
 
 
 # properties whose theorems live in more than one module
-PROP_MODULES = {"C01": ["C01", "C01Congr"], "C03": ["C03", "C03Cont"], "C09": ["C09", "C09List"], "C14": ["C14", "C14Cex"]}
+PROP_MODULES = {"C01": ["C01", "C01Congr"], "C13": ["C13", "C13Ban"], "C03": ["C03", "C03Cont"], "C09": ["C09", "C09List"], "C14": ["C14", "C14Cex"]}
 
 
 def axiom_audit(prop, theorems=None):
